@@ -290,6 +290,8 @@ NeverUnverified ==
 
 \* a call that found a complete cache entry and was not told to download again uses no network
 OfflineWhenCached == \A p \in All : (hit[p] /\ ~cfg[p].force) => att[p] = 0
+\* ... and is served from it, whatever download_if_missing says ("a cached dataset is served without network access")
+ServedWhenCached == \A p \in All : (pc[p] = "done" /\ hit[p] /\ ~cfg[p].force) => (res[p][1] = "data" /\ res[p][2] = cfg[p].d)
 OfflineStep == [][\A p \in All : (hit[p] /\ ~cfg[p].force) => att'[p] = att[p]]_vars
 
 \* at most n_retries + 1 attempts; a network error leaves the call only after n_retries + 1 failures;
